@@ -350,7 +350,7 @@ func init() {
 			panic(tpanic("invalid argument of BinaryLog at " + c.posStr(pos)))
 		}
 		if n.Op == OpConst {
-			ch, m := mathutil.BinaryLog(n.Val, int(bits))
+			ch, m := mathutil.BinaryLog(new(big.Int).Set(n.Val), int(bits)) // BinaryLog mutates its argument
 			return tuple{CI(int64(ch)), newBigPtr(CInt(m))}
 		}
 		ch := Sub(bitLenTerm(n, c.h.maxBigBits), CI(1))
